@@ -57,10 +57,11 @@ GHOSTS = {
 
 
 class Space:
-    """iteration space of a symbolic loop: N iterations, element k, the list terms it reads"""
+    """iteration space of a symbolic loop: N iterations, element k, the list terms it reads; `offsets`: element k of the
+    loop is element k + off of an underlying sequence (quantified facts about that sequence are instantiated there)"""
 
-    def __init__(self, n, elem, sources):
-        self.n, self.elem, self.sources = n, elem, sources
+    def __init__(self, n, elem, sources, offsets=()):
+        self.n, self.elem, self.sources, self.offsets = n, elem, sources, tuple(offsets)
 
 
 class LoopMixin:
@@ -90,15 +91,17 @@ class LoopMixin:
             n = sp[0].n
             for s in sp[1:]:
                 n = z3.If(n <= s.n, n, s.n)
-            return "symbolic", Space(n, lambda k: tuple(s.elem(k) for s in sp), [x for s in sp for x in s.sources])
+            return "symbolic", Space(n, lambda k: tuple(s.elem(k) for s in sp), [x for s in sp for x in s.sources],
+                                     offsets=[o for s in sp for o in s.offsets])
         if isinstance(it, tuple) and it and it[0] == "enumerate":
             kind, v = self.iter_space(it[1], st)
             if kind == "concrete":
                 return "concrete", list(enumerate(v))
-            return "symbolic", Space(v.n, lambda k: (mk_int(k), v.elem(k)), v.sources)
+            return "symbolic", Space(v.n, lambda k: (mk_int(k), v.elem(k)), v.sources, offsets=v.offsets)
         from .values import AbsSeq
         if isinstance(it, AbsSeq):
-            return "symbolic", Space(it.n, (it.elem if it.elem is not None else (lambda k: OpaqueV("element"))), [])
+            return "symbolic", Space(it.n, (it.elem if it.elem is not None else (lambda k: OpaqueV("element"))), [],
+                                     offsets=([it.offset] if it.offset is not None else []))
         if isinstance(it, (tuple, str, bytes, frozenset)):
             return "concrete", list(it)
         if isinstance(it, dict):
@@ -109,14 +112,16 @@ class LoopMixin:
                 if o.items is not None:
                     return "concrete", list(o.items)
                 t, tag = o.t, o.tag
+                offs = []
                 if o.origin is not None:
                     base, off = o.origin
                     el = lambda k: self.elem_value(tag, base[off + k])
+                    offs = [off]
                 else:
                     el = lambda k: self.elem_value(tag, t[k])
                 if tag == "chunk":
                     st.fact(Lemmas.list_basic(t))
-                return "symbolic", Space(z3.Length(t), el, [(t, tag)])
+                return "symbolic", Space(z3.Length(t), el, [(t, tag)], offsets=offs)
             if isinstance(o, DictV):
                 return "concrete", list(o.items)
         if isinstance(it, Sym) and it.tag == "str":
@@ -253,7 +258,11 @@ class LoopMixin:
             from .values import AbsV, SymDict
             if isinstance(v, Ref) and (isinstance(st.deref(v), SymDict) or
                                        (isinstance(st.deref(v), DictV) and getattr(self.contract, "symdict", False))):
-                nd = SymDict(fresh(nm + "_present", z3.ArraySort(T.I, T.B)), fresh(nm + "_val", z3.ArraySort(T.I, T.I)), fresh(nm + "_nonempty", T.B))
+                old_d = st.deref(v)
+                # the key shift changes only when the name is rebound in the loop body (a re-keying comprehension)
+                keep_shift = isinstance(old_d, SymDict) and nm not in names
+                nd = SymDict(fresh(nm + "_present", z3.ArraySort(T.I, T.B)), fresh(nm + "_val", z3.ArraySort(T.I, T.I)), fresh(nm + "_nonempty", T.B),
+                             old_d.shift if keep_shift else (z3.IntVal(0) if not isinstance(old_d, SymDict) and nm not in names else fresh(nm + "_shift", T.I)))
                 if nm in names:
                     st.env[nm] = st.alloc(nd)
                 else:
@@ -326,6 +335,8 @@ class LoopMixin:
         s2.assume(k >= 0, k < sp.n)
         s2.add_index(k)
         s2.add_index(k + 1)
+        for off in sp.offsets:
+            s2.add_index(z3.simplify(off + k))
         self.inv_assume(spec, s2, k, gk, sp)
         for g in gdefs:         # before the first iteration every ghost fold is its unit
             s2.fact(z3.Implies(k == 0, gk[g.name] == g.unit()))
@@ -481,6 +492,8 @@ class LoopMixin:
             raise Unsupported("nested comprehension")
         g = n.generators[0]
         it = self.ev(g.iter, st)
+        if isinstance(it, tuple) and len(it) == 2 and it[0] == "symdict_items":
+            return self.rekey_symdict(n, g, it[1], st, kind)
         k, sp = self.iter_space(it, st)
         if k == "concrete":
             out = []
@@ -511,6 +524,29 @@ class LoopMixin:
         if kind == "list":
             return self.materialize(gv, st)
         return gv
+
+    def rekey_symdict(self, n, g, ref, st, kind):
+        """{k + c: v for k, v in d.items()} over a symbolic int-keyed dict: the same entries under shifted keys"""
+        from .values import SymDict
+        d = st.deref(ref)
+        if kind != "dict" or g.ifs or not (isinstance(g.target, ast.Tuple) and len(g.target.elts) == 2
+                                         and all(isinstance(e, ast.Name) for e in g.target.elts)):
+            raise Unsupported("comprehension over the items of a symbolic dict")
+        kn, vn = g.target.elts[0].id, g.target.elts[1].id
+        if not (isinstance(n.value, ast.Name) and n.value.id == vn):
+            raise Unsupported("re-keying comprehension that changes the values")
+        key = n.key
+        if isinstance(key, ast.Name) and key.id == kn:
+            c = 0
+        elif isinstance(key, ast.BinOp) and isinstance(key.left, ast.Name) and key.left.id == kn and isinstance(key.op, (ast.Add, ast.Sub)):
+            cv = self.ev(key.right, st)
+            if not is_int(cv):
+                raise Unsupported("re-keying by a non-integer")
+            c = int_term(cv) if isinstance(key.op, ast.Add) else -int_term(cv)
+        else:
+            raise Unsupported("re-keying comprehension with this key expression")
+        # new key k' = k + c holds what key k held: array index of k' is k' - c + shift
+        return st.alloc(SymDict(d.present, d.val, d.nonempty, z3.simplify(d.shift - c)))
 
     def _truth_concrete(self, v, st):
         t = self.truth(v, st)
